@@ -34,7 +34,9 @@ ReifyE(g, m, i, vars, tr, epi) ==
                 outE == SelectM(old, {"align"}) \o LastPush(old, Len(old)) \o SelectM(old, {"pop"})
             IN ReifyE(g, m, i + 1, vars \cup {v}, tr \o <<inT, nodeT, outT>>, epi \o <<<<Mk("push", v)>>, nodeE, outE>>)
          ELSE ReifyE(g, m, i + 1, vars, Append(tr, t), Append(epi, EpiOf(g, t)))
-ReifyEdges(g, m) == ReifyE(g, m, 1, Vars(g), <<>>, <<>>)
+\* names a new variable must avoid: every variable and every constant of the graph
+Taken(g) == Vars(g) \cup {g.tr[i][3] : i \in DOMAIN g.tr}
+ReifyEdges(g, m) == ReifyE(g, m, 1, Taken(g), <<>>, <<>>)
 
 (* ---- reify attributes: every attribute target becomes the concept of a new node ---- *)
 RECURSIVE ReifyA(_, _, _, _, _)
@@ -48,7 +50,7 @@ ReifyA(g, i, vars, tr, epi) ==
                       epi \o << SelectM(old, {"ralign"}) \o <<Mk("push", v)>>,
                                 SelectM(old, {"align"}) \o SelectM(old, {"pop"}) \o <<POPm>> >>)
          ELSE ReifyA(g, i + 1, vars, Append(tr, t), Append(epi, EpiOf(g, t)))
-ReifyAttributes(g) == ReifyA(g, 1, Vars(g), <<>>, <<>>)
+ReifyAttributes(g) == ReifyA(g, 1, Taken(g), <<>>, <<>>)
 
 (* ---- indicate branches: a TOP triple before every triple that opens a node ---- *)
 RECURSIVE Indic(_, _, _, _)
